@@ -527,6 +527,27 @@ def check_C08(ck, res, replay):
             mism += 1
             if mism <= 5:
                 res.broken.append(("correspondence", "parser model and implementation differ on %r" % text, json.dumps({"impl": a, "model": b})[:1500]))
+    # the command line must not answer for text the parser rejects (every library mode has its own error path)
+    cli_n = 0
+    if not replay:
+        binary = build_cli(ck, res)
+        if binary:
+            bad_texts = [meta["text"] for cid, (kind, body, meta) in cf.meta.items() if py_grammar(meta["text"]) is None and 3 < len(meta["text"]) < 400 and "\x00" not in meta["text"]]
+            bad_texts = rng.shuffle(bad_texts)[: 40 if res.tier == "quick" else 600]
+            cases = {}
+            for i, t in enumerate(bad_texts):
+                for mode in ("hybrid", "biodivine", "naive"):
+                    cases["m%d%s" % (i, mode[0])] = {"text": t, "mode": mode, "sort": rng.pick(["none", "lexi"]), "flags": [rng.pick(["grd", "com", "stm"])]}
+            outs = run_cli_cases(ck, binary, cases)
+            for cid, c in cases.items():
+                o_ = outs.get(cid, (None, [], ""))
+                code, lines = o_[0], o_[1]
+                cli_n += 1
+                answered = [l for l in lines if re.search(r"\b[TFu]\(", l)]
+                if code == 0 or answered:
+                    res.violations.append({"key": "cli:answers-malformed:" + c["mode"], "what": "adf-bdd --lib %s answers (exit %s, %d interpretation lines) for text the documented grammar excludes" % (c["mode"], code, len(answered)),
+                                           "text": c["text"], "mode": c["mode"], "flags": c["flags"], "observed": lines[:5]})
+    res.extra["cli_malformed_runs"] = cli_n
     res.cov["evaluations"] = len(cf.meta)
     res.cov["distinct_nontrivial"] = len(nontriv)
     res.cov["rule"] = ("valid stream: rendered random documents (fact order shuffled, layout toggled, plain / keyword-like / quoted labels); malformed stream: "
@@ -1323,6 +1344,23 @@ def check_C19(ck, res, replay):
             mism += 1
             if mism <= 5:
                 res.broken.append(("correspondence", "stream case %s: implementation and model differ" % cid, json.dumps({"body": body, "impl": a, "model": b})[:2500]))
+    # bounded channels and real threads (implementation only): a late relay, sends that wait for the consumer;
+    # when everything has ended the three tables must be identical
+    if hbin and not replay:
+        cf3 = gen.CaseFile()
+        for i in range(60 if res.tier == "quick" else 1500):
+            kind, body = gen.gen_prog(rng, 3 + rng.below(4), 10 + rng.below(25), queries=False)
+            body = [l for l in body if not l.startswith("q")]
+            cf3.add("STREAMT %d %d" % (1 + rng.below(4), rng.pick([0, 500, 3000])), body, prefix="t", meta={})
+        out3, fails3 = ck.run_sharded(hbin, cf3.lines, "C19.threads", timeout=1200)
+        threaded = 0
+        for cid, (kind, body, meta) in cf3.meta.items():
+            a = out3.get(cid)
+            threaded += 1
+            if not a or "relay_equal=1 last_equal=1" not in a[0]:
+                res.violations.append({"key": "stream:bounded-channel", "what": "producer, relay and receiver on bounded channels (%s): after the producer ended and the channels were drained the tables are not identical: %s" % (kind, a),
+                                       "kind": kind, "body": body, "observed": a})
+        res.extra["threaded_bounded_channel_cases"] = threaded
     res.cov["evaluations"] = len(cf.meta)
     res.cov["distinct_nontrivial"] = len(nontriv)
     res.cov["rule"] = ("random producer programs; the harness owns the channels producer -> relay -> receiver and moves pending nodes one by one, so polls fall between "
@@ -1494,6 +1532,13 @@ def check_C10(ck, res, replay):
             names = pool[:n]
             conds = [(nm, gen.gen_formula(rng, [rng.pick(names) for _ in range(4)], 2 + rng.below(3 if not large else 5), nm)) for nm in names]
             qs = [["grounded"]] if large else [["grounded"], ["complete"], ["stable"], ["twoval", "Simple"]]
+            backend = "native"
+            if not large and b % 3 == 1:
+                # the other ways to the stable models: pre-filter, counting search, nogood search
+                qs = [["grounded"], ["stablepre"], ["stmca"], ["stmng", "Simple"]]
+            elif not large and b % 3 == 2:
+                # the biodivine back-end with the prepared single-formula rewriting
+                backend, qs = "biorew", [["grounded"], ["stable"], ["stablerew"]]
             rho = {nm: "r%dq" % (len(names) - i) for i, nm in enumerate(sorted(names))}   # reverses the lexicographic order
             for pres in range(6):
                 nm2, c2, sort, lay, ren = names, conds, "none", {}, None
@@ -1510,8 +1555,8 @@ def check_C10(ck, res, replay):
                     sort = "lexi" if pres == 4 else "alnum"
                     lay = {"shuffle": pres == 5, "ws": pres == 5}
                 text = gen.render_adf(rng, nm2, c2, lay)
-                body = ["text " + gen.hexs(text), "sort " + sort] + ["q " + " ".join(q) for q in qs]
-                cid = cf.add("ADF", body, meta={"text": text, "queries": qs, "sort": sort, "rename": ren, "pres": pres, "large": large})
+                body = ["text " + gen.hexs(text), "sort " + sort, "backend " + backend] + ["q " + " ".join(q) for q in qs]
+                cid = cf.add("ADF", body, meta={"text": text, "queries": qs, "sort": sort, "rename": ren, "pres": pres, "large": large, "backend": backend})
                 groups.setdefault(b, []).append(cid)
     impl, model = correspond(ck, res, cf, hbin, "C10", env={"VERIF_CASE_TIMEOUT_MS": "30000"})
     nontriv = set()
@@ -1532,7 +1577,7 @@ def check_C10(ck, res, replay):
             view = []
             for l in a[2:]:
                 w = l.split()
-                if len(w) >= 2 and w[1] in ("grounded", "complete", "stable", "twoval"):
+                if len(w) >= 2 and w[1] in ("grounded", "complete", "stable", "twoval", "stablepre", "stablerew", "stmca", "stmng"):
                     vs = [w[2]] if w[1] == "grounded" else w[2:]
                     view.append((w[1], frozenset(frozenset((inv.get(nm, nm), ch) for nm, ch in zip(names, v)) for v in vs)))
             views.append((cid, view))
@@ -2316,6 +2361,9 @@ def check_C17(ck, res, replay):
                     post = run.docs()        # taken after the background task of an add / solve has ended
                     if foreign(before) != foreign(post) or (req[0] not in ("add", "solve") and foreign(before) != foreign(after)):
                         res.violations.append({"key": "isolation:foreign-modified:" + req[0], "what": "a request of client %d changed a problem created by another client" % c,
+                                               "events": list(run.model_lines)})
+                    if req[0] in ("delacc", "logout") and st == 200 and run.client(c).cookie is not None:
+                        res.violations.append({"key": "credentials:session-survives:" + req[0], "what": "after a successful %s the browser still holds a valid session cookie (whoever registers the name next is exposed to it)" % req[0],
                                                "events": list(run.model_lines)})
                     # every stored problem belongs to an existing account (nothing is left behind by delete-account /
                     # logout of a temporary user for whoever takes the name next)
